@@ -3,12 +3,15 @@ package c07
 
 import (
 	"encoding/json"
+	"errors"
 	"fmt"
 	"html/template"
+	"math"
 	"reflect"
 	"strings"
 	"testing"
 	"time"
+	"unsafe"
 
 	"verif/internal/match"
 	"verif/internal/model"
@@ -27,12 +30,41 @@ type iter struct{ n int }
 
 func (i *iter) Next() interface{} { return nil }
 
+// values that print as nothing: they are structs / pointers / errors, not the empty string and not empty HTML
+type quiet struct{}
+
+func (quiet) String() string { return "" }
+
+type quietHTML struct{}
+
+func (quietHTML) HTML() template.HTML { return "" }
+
+type quietErr struct{}
+
+func (quietErr) Error() string { return "" }
+
+type onlyEmpty struct{ S string }
+type named string // a string type of the program: the statement names "the empty string" and "empty HTML" only
+
+// holder carries a value in a field of interface type (spelling s.V)
+type holder struct{ V interface{} }
+
+func (h holder) Get() interface{} { return h.V }
+
 type kind struct {
 	name   string
 	truthy bool
 	lit    string             // literal spelling ("" = only through the variable v)
 	mk     func() interface{} // value bound to v (nil func = v stays unset)
 	helper func() interface{} // optional: value returned by helper hv()
+	// uniform: the statement does not say whether the value is truthy (it is neither in the list of falsy values
+	// beyond doubt nor clearly "another value"); only "the same truth value wherever it is tested" is asserted,
+	// against the plain if
+	uniform bool
+	// hfn: the helper hv itself (a Go function with its own result types) instead of a func() interface{}
+	hfn func(calls *int) interface{}
+	// nilResult: hfn yields the nil interface (which cannot be passed on through a template function: nil unsets a name)
+	nilResult bool
 }
 
 var kinds = []kind{
@@ -95,6 +127,73 @@ var kinds = []kind{
 	{name: "helper returning nil *struct", truthy: false, helper: func() interface{} { return (*pt)(nil) }},
 	{name: "helper returning empty slice", truthy: true, helper: func() interface{} { return []int{} }},
 	{name: "helper returning empty HTML", truthy: false, helper: func() interface{} { return template.HTML("") }},
+	// ---- added by the second widening pass (appended: indexes of the kinds above are stable) ----
+	{name: "nil **int", truthy: false, mk: func() interface{} { return (**int)(nil) }},
+	{name: "**int to a nil *int", truthy: true, mk: func() interface{} { var p *int; return &p }},
+	{name: "***int, second link nil", truthy: true, mk: func() interface{} { var p **int; return &p }},
+	{name: "*struct to nil *struct field", truthy: true, mk: func() interface{} { return &struct{ P *pt }{} }},
+	{name: "nil *iterator", truthy: false, mk: func() interface{} { return (*iter)(nil) }},
+	{name: "nil pointer stored through an interface type", truthy: false, mk: func() interface{} { var s fmt.Stringer = (*quiet)(nil); return s }},
+	{name: "*HTML to empty", truthy: true, mk: func() interface{} { h := template.HTML(""); return &h }},
+	{name: "*[]int to nil slice", truthy: true, mk: func() interface{} { var x []int; return &x }},
+	{name: "*interface{} to nil", truthy: true, mk: func() interface{} { var x interface{}; return &x }},
+	{name: "Stringer printing nothing", truthy: true, mk: func() interface{} { return quiet{} }},
+	{name: "*Stringer printing nothing", truthy: true, mk: func() interface{} { return &quiet{} }},
+	{name: "HTMLer producing empty HTML", truthy: true, mk: func() interface{} { return quietHTML{} }},
+	{name: "error with empty message", truthy: true, mk: func() interface{} { return quietErr{} }},
+	{name: "errors.New empty", truthy: true, mk: func() interface{} { return errors.New("") }},
+	{name: "struct of one empty string", truthy: true, mk: func() interface{} { return onlyEmpty{} }},
+	{name: "nil chan", truthy: true, mk: func() interface{} { return (chan int)(nil) }},
+	{name: "chan", truthy: true, mk: func() interface{} { return make(chan int) }},
+	{name: "uintptr 0", truthy: true, mk: func() interface{} { return uintptr(0) }},
+	{name: "complex 0", truthy: true, mk: func() interface{} { return complex(0, 0) }},
+	{name: "NaN", truthy: true, mk: func() interface{} { return math.NaN() }},
+	{name: "negative zero", truthy: true, mk: func() interface{} { return math.Copysign(0, -1) }},
+	{name: "int16 0", truthy: true, mk: func() interface{} { return int16(0) }},
+	{name: "int32 0", truthy: true, mk: func() interface{} { return int32(0) }},
+	{name: "uint16 0", truthy: true, mk: func() interface{} { return uint16(0) }},
+	{name: "uint32 0", truthy: true, mk: func() interface{} { return uint32(0) }},
+	{name: "uint64 0", truthy: true, mk: func() interface{} { return uint64(0) }},
+	{name: "nil []byte", truthy: true, mk: func() interface{} { return []byte(nil) }},
+	{name: "nil []int", truthy: true, mk: func() interface{} { return []int(nil) }},
+	{name: "nil map[string]string", truthy: true, mk: func() interface{} { return map[string]string(nil) }},
+	{name: "slice of one nil", truthy: true, mk: func() interface{} { return []interface{}{nil} }},
+	{name: "slice of one empty string", truthy: true, mk: func() interface{} { return []string{""} }},
+	{name: "slice of one false", truthy: true, mk: func() interface{} { return []bool{false} }},
+	{name: "map with a nil value", truthy: true, mk: func() interface{} { return map[string]interface{}{"a": nil} }},
+	{name: "[1]string of empty", truthy: true, mk: func() interface{} { return [1]string{} }},
+	{name: "string nil", truthy: true, lit: `"nil"`, mk: func() interface{} { return "nil" }},
+	{name: "newline string", truthy: true, mk: func() interface{} { return "\n" }},
+	{name: "NUL string", truthy: true, mk: func() interface{} { return "\x00" }},
+	{name: "HTML of one space", truthy: true, mk: func() interface{} { return template.HTML(" ") }},
+	{name: "HTML false", truthy: true, mk: func() interface{} { return template.HTML("false") }},
+	{name: "empty backquoted string", truthy: false, lit: "``"},
+	{name: "large int", truthy: true, lit: "9223372036854775807", mk: func() interface{} { return math.MaxInt64 }},
+	{name: "float literal 0.00", truthy: true, lit: "0.00"},
+	{name: "literal 00", truthy: true, lit: "00"},
+	// helpers with result types of their own (the value reaches the test through the call machinery)
+	{name: "helper (string, error) returning empty", truthy: false, hfn: func(n *int) interface{} { return func() (string, error) { *n++; return "", nil } }},
+	{name: "helper (string, error) returning x", truthy: true, hfn: func(n *int) interface{} { return func() (string, error) { *n++; return "x", nil } }},
+	{name: "helper (int, error) returning 0", truthy: true, hfn: func(n *int) interface{} { return func() (int, error) { *n++; return 0, nil } }},
+	{name: "helper (interface{}, error) returning nil", truthy: false, nilResult: true, hfn: func(n *int) interface{} { return func() (interface{}, error) { *n++; return nil, nil } }},
+	{name: "helper *struct returning nil", truthy: false, hfn: func(n *int) interface{} { return func() *pt { *n++; return nil } }},
+	{name: "helper *struct returning one", truthy: true, hfn: func(n *int) interface{} { return func() *pt { *n++; return &pt{} } }},
+	{name: "helper error returning nil", truthy: false, nilResult: true, hfn: func(n *int) interface{} { return func() error { *n++; return nil } }},
+	{name: "helper bool returning false", truthy: false, hfn: func(n *int) interface{} { return func() bool { *n++; return false } }},
+	{name: "helper bool returning true", truthy: true, hfn: func(n *int) interface{} { return func() bool { *n++; return true } }},
+	{name: "helper HTML returning empty", truthy: false, hfn: func(n *int) interface{} { return func() template.HTML { *n++; return "" } }},
+	{name: "helper HTML returning text", truthy: true, hfn: func(n *int) interface{} { return func() template.HTML { *n++; return "<i>" } }},
+	{name: "helper []string returning nil", truthy: true, hfn: func(n *int) interface{} { return func() []string { *n++; return nil } }},
+	{name: "helper map returning nil", truthy: true, hfn: func(n *int) interface{} { return func() map[string]int { *n++; return nil } }},
+	{name: "helper float64 returning 0", truthy: true, hfn: func(n *int) interface{} { return func() float64 { *n++; return 0 } }},
+	{name: "helper taking the helper context, returning empty", truthy: false, hfn: func(n *int) interface{} { return func(plush.HelperContext) string { *n++; return "" } }},
+	{name: "helper taking the helper context, returning 0", truthy: true, hfn: func(n *int) interface{} { return func(plush.HelperContext) int { *n++; return 0 } }},
+	// the statement is silent about these: only uniformity is asserted
+	{name: "empty value of a named string type", uniform: true, mk: func() interface{} { return named("") }},
+	{name: "empty template.JS", uniform: true, mk: func() interface{} { return template.JS("") }},
+	{name: "empty template.URL", uniform: true, mk: func() interface{} { return template.URL("") }},
+	{name: "nil unsafe.Pointer", uniform: true, mk: func() interface{} { return unsafe.Pointer(nil) }},
+	{name: "empty json.Number", uniform: true, mk: func() interface{} { return json.Number("") }},
 }
 
 // the test positions; %s is the value spelling. Each renders T for truthy, F for falsy.
@@ -123,20 +222,85 @@ var positions = []struct{ name, tmpl string }{
 	{"unknown, then parameter", `<%%= if (w || w == nil) { %%><%% } %%><%% let f = fn(w) { %%><%%= if (w) { %%>T<%% } else { %%>F<%% } %%><%% } %%><%%= f(%s) %%>`},
 	{"unknown, then parameter, &&", `<%%= if (w && true) { %%>X<%% } %%><%% let f = fn(w) { %%><%%= if (true && w) { %%>T<%% } else { %%>F<%% } %%><%% } %%><%%= f(%s) %%>`},
 	{"unknown, then helper-context data", `<%%= if (w) { %%>X<%% } %%><%%= blkd({w: %s}) { %%><%%= if (w) { %%>T<%% } else { %%>F<%% } %%><%% } %%>`},
+	// ---- added by the second widening pass (appended) ----
+	{"emit !!", `<%%= !!%s %%>`}, // prints true / false, never the value
+	{"emit !! in silent let", `<%% let r = !!%s %%><%%= r %%>`},
+	{"if !!!", `<%%= if (!!!%s) { %%>F<%% } else { %%>T<%% } %%>`},
+	{"if !(!v)", `<%%= if (!(!%s)) { %%>T<%% } else { %%>F<%% } %%>`},
+	{"if ((v))", `<%%= if ((%s)) { %%>T<%% } else { %%>F<%% } %%>`},
+	{"if !(v)", `<%%= if (!(%s)) { %%>F<%% } else { %%>T<%% } %%>`},
+	{"v && v", `<%%= if (%[1]s && %[1]s) { %%>T<%% } else { %%>F<%% } %%>`},
+	{"v || v", `<%%= if (%[1]s || %[1]s) { %%>T<%% } else { %%>F<%% } %%>`},
+	{"!(v && true)", `<%%= if (!(%s && true)) { %%>F<%% } else { %%>T<%% } %%>`},
+	{"(v || false) && true", `<%%= if ((%s || false) && true) { %%>T<%% } else { %%>F<%% } %%>`},
+	{"true && true && v", `<%%= if (true && true && %s) { %%>T<%% } else { %%>F<%% } %%>`},
+	{"false || false || v", `<%%= if (false || false || %s) { %%>T<%% } else { %%>F<%% } %%>`},
+	{"!v || false", `<%%= if (!%s || false) { %%>F<%% } else { %%>T<%% } %%>`},
+	{"!v && true", `<%%= if (!%s && true) { %%>F<%% } else { %%>T<%% } %%>`},
+	{"true && !v", `<%%= if (true && !%s) { %%>F<%% } else { %%>T<%% } %%>`},
+	{"if in then block", `<%%= if (true) { %%><%%= if (%s) { %%>T<%% } else { %%>F<%% } %%><%% } else { %%>X<%% } %%>`},
+	{"if in else block", `<%%= if (false) { %%>X<%% } else { %%><%%= if (%s) { %%>T<%% } else { %%>F<%% } %%><%% } %%>`},
+	{"if in else-if block", `<%%= if (nil) { %%>X<%% } else if (0) { %%><%%= if (%s) { %%>T<%% } else { %%>F<%% } %%><%% } else { %%>Y<%% } %%>`},
+	{"else-if in else block", `<%%= if (false) { %%>X<%% } else { %%><%%= if (false) { %%>Y<%% } else if (%s) { %%>T<%% } else { %%>F<%% } %%><%% } %%>`},
+	{"fifth else-if", `<%%= if (false) { %%>1<%% } else if (nil) { %%>2<%% } else if ("") { %%>3<%% } else if (false) { %%>4<%% } else if (%s) { %%>T<%% } else if (true) { %%>F<%% } else { %%>Z<%% } %%>`},
+	{"return from fn", `<%% let f = fn() { if (%s) { return "T" } return "F" } %%><%%= f() %%>`},
+	{"return from fn, else-if", `<%% let f = fn() { if (false) { return "X" } else if (%s) { return "T" } else { return "F" } return "Z" } %%><%%= f() %%>`},
+	{"one-tag chain", `<%% let r = "Z" %%><%% if (false) { r = "X" } else if (%s) { r = "T" } else { r = "F" } %%><%%= r %%>`},
+	{"if in for in fn", `<%% let f = fn() { %%><%%= for (i) in one { %%><%%= if (%s) { %%>T<%% } else { %%>F<%% } %%><%% } %%><%% } %%><%%= f() %%>`},
+	{"if in fn in for", `<%%= for (i) in one { %%><%% let f = fn() { %%><%%= if (%s) { %%>T<%% } else { %%>F<%% } %%><%% } %%><%%= f() %%><%% } %%>`},
+	{"if in block helper in for", `<%%= for (i) in one { %%><%%= blk() { %%><%%= if (%s) { %%>T<%% } else { %%>F<%% } %%><%% } %%><%% } %%>`},
+	{"compact spelling", `<%%=if(%s){%%>T<%%}else{%%>F<%%}%%>`},
+	{"compact else-if", `<%%=if(false){%%>X<%%}else if(%s){%%>T<%%}else{%%>F<%%}%%>`},
+	{"multi-line tag", "<%%=\n if (\n %s\n )\n {\n %%>T<%%\n }\n else\n {\n %%>F<%%\n }\n %%>"},
+	{"multi-line else-if", "<%%= if (false) { %%>X<%% }\n else\n if\n (%s) { %%>T<%% } else { %%>F<%% } %%>"},
+	{"under 20 else blocks", strings.Repeat(`<%%= if (false) { %%>X<%% } else { %%>`, 20) + `<%%= if (%s) { %%>T<%% } else { %%>F<%% } %%>` + strings.Repeat(`<%% } %%>`, 20)},
+	{"under 20 then blocks, else-if", strings.Repeat(`<%%= if (1) { %%>`, 20) + `<%%= if (nil) { %%>X<%% } else if (%s) { %%>T<%% } else { %%>F<%% } %%>` + strings.Repeat(`<%% } else { %%>Y<%% } %%>`, 20)},
+	{"if in contentFor block", `<%%= if (true) { %%><%% contentFor("cf") { %%><%%= if (%s) { %%>T<%% } else { %%>F<%% } %%><%% } %%><%%= contentOf("cf") %%><%% } %%>`},
+	// the same statement has already forgiven an unknown identifier when the value is tested
+	{"after a forgiven unknown, ||", `<%%= if (unk0 || %s) { %%>T<%% } else { %%>F<%% } %%>`},
+	{"after a forgiven unknown, !&&", `<%%= if (!unk0 && %s) { %%>T<%% } else { %%>F<%% } %%>`},
+	{"after two forgiven unknown conditions", `<%%= if (unk0) { %%>X<%% } else if (unk1) { %%>Y<%% } else if (%s) { %%>T<%% } else { %%>F<%% } %%>`},
+	{"before a forgiven unknown", `<%%= if (%s && !unk0) { %%>T<%% } else { %%>F<%% } %%>`},
+	{"statement forgiving again on every pass", `<%%= for (i) in three { %%><%%= if (unk0 || %s) { %%>T<%% } else { %%>F<%% } %%><%% } %%>`},
+}
+
+// how the value reaches the test site
+var spells = []struct{ name, expr, pre string }{
+	{"", "", ""}, // v, the literal, or hv()
+	{"map index", `d["v"]`, ""},
+	{"slice index", `l[0]`, ""},
+	{"field of interface type", `s.V`, ""},
+	{"result of a template function", `id(%s)`, `<% let id = fn(x) { return x } %>`},
+	{"result of a template function without return keyword", `pick(%s)`, `<% let pick = fn(x) { if (true) { return x } return 0 } %>`},
+	{"field of an indexed element", `hs[0].V`, ""},
+	{"field of a call result", `hold().V`, ""},
+	{"method result", `s.Get()`, ""},
+	{"field of an element of a map of structs", `hm["k"].V`, ""},
+	// variables whose names begin like a keyword
+	{"variable named nilx", `nilx`, ""},
+	{"variable named falsey", `falsey`, ""},
+	{"variable named iffy", `iffy`, ""},
+	{"variable named elsewhere", `elsewhere`, ""},
 }
 
 type TruthCase struct {
 	Kind     int  `json:"kind"`
 	Position int  `json:"position"`
 	Literal  bool `json:"literal"`
+	Spell    int  `json:"spell,omitempty"`
 }
 
 func expectFor(pos string, truthy bool) string {
 	switch pos {
 	case "emit !", "emit ! top":
 		return fmt.Sprint(!truthy)
-	case "emit &&", "emit ||":
+	case "emit &&", "emit ||", "emit !!", "emit !! in silent let":
 		return fmt.Sprint(truthy)
+	case "statement forgiving again on every pass":
+		if truthy {
+			return "TTT"
+		}
+		return "FFF"
 	}
 	if truthy {
 		return "T"
@@ -144,24 +308,36 @@ func expectFor(pos string, truthy bool) string {
 	return "F"
 }
 
+// value returns the Go value of a kind where it has one that can be stored in data.
+func (k kind) value() (interface{}, bool) {
+	switch {
+	case k.mk != nil:
+		return k.mk(), true
+	case k.helper != nil:
+		return k.helper(), true
+	}
+	return nil, false
+}
+
+func isNonNilPointer(v interface{}) bool {
+	rv := reflect.ValueOf(v)
+	return rv.IsValid() && rv.Kind() == reflect.Ptr && !rv.IsNil()
+}
+
 func checkTruth(r *vk.Run, c TruthCase) *vk.Fail {
 	defer r.Watch("truth", c)()
-	k, p := kinds[c.Kind], positions[c.Position]
+	k, p, sp := kinds[c.Kind], positions[c.Position], spells[c.Spell]
 	spelling := "v"
 	if c.Literal {
 		spelling = k.lit
 	}
-	if k.helper != nil {
-		spelling = "hv()"
+	if k.helper != nil || k.hfn != nil {
+		spelling = "hv()" // (a helper context parameter is supplied by the engine)
 	}
-	src := fmt.Sprintf(p.tmpl, spelling)
-	if strings.HasPrefix(p.name, "unknown, then") && spelling == "v" && (k.mk == nil || k.mk() == nil) {
-		// these positions pass the value on: an unset name cannot be passed (that is an error by C05, not a truth value)
-		r.Exclude("value-needed")
-		return nil
-	}
+	calls := 0
+	counted := spelling == "hv()"
 	data := map[string]interface{}{
-		"one": []int{1},
+		"one": []int{1}, "three": []int{1, 2, 3},
 		"blk": func(h plush.HelperContext) (template.HTML, error) { s, err := h.Block(); return template.HTML(s), err },
 		"blkd": func(d map[string]interface{}, h plush.HelperContext) (template.HTML, error) {
 			hc := h.New()
@@ -172,21 +348,103 @@ func checkTruth(r *vk.Run, c TruthCase) *vk.Fail {
 			return template.HTML(s), err
 		},
 	}
-	if k.mk != nil && !c.Literal {
+	switch sp.name {
+	case "":
+	case "variable named nilx", "variable named falsey", "variable named iffy", "variable named elsewhere":
+		// the same as v under another name (also for the unset name and the nil context value)
+		if spelling != "v" {
+			r.Exclude("value-needed")
+			return nil
+		}
+		if k.mk != nil {
+			data[sp.expr] = k.mk()
+		}
+		spelling = sp.expr
+	case "result of a template function", "result of a template function without return keyword":
+		// the value is passed on: an unset name cannot be passed (that is an error by C05, not a truth value)
+		if v, ok := k.value(); spelling == "nil" || k.nilResult || (ok && v == nil) || (spelling == "v" && !ok) {
+			r.Exclude("value-needed")
+			return nil
+		}
+		spelling = fmt.Sprintf(sp.expr, spelling)
+	default:
+		v, ok := k.value()
+		if !ok || c.Literal || k.hfn != nil {
+			r.Exclude("value-needed")
+			return nil
+		}
+		if sp.name != "map index" && sp.name != "slice index" && isNonNilPointer(v) {
+			// whether a field that holds a pointer yields the pointer or what it points to is C11's matter
+			r.Exclude("unspecified")
+			return nil
+		}
+		if _, isErr := v.(error); isErr && sp.name == "method result" {
+			// a Go function whose interface{} result holds an error value: whether that is a failed call is C12's matter (unspecified there)
+			r.Exclude("unspecified")
+			return nil
+		}
+		data["d"] = map[string]interface{}{"v": v}
+		data["l"] = []interface{}{v}
+		data["s"] = holder{V: v}
+		data["hs"] = []holder{{V: v}}
+		data["hm"] = map[string]holder{"k": {V: v}}
+		data["hold"] = func() holder { return holder{V: v} }
+		spelling, counted = sp.expr, false
+	}
+	src := sp.pre + fmt.Sprintf(p.tmpl, spelling)
+	if strings.HasPrefix(p.name, "unknown, then") && (spelling == "v" || strings.HasPrefix(sp.name, "variable named")) && (k.mk == nil || k.mk() == nil) {
+		// these positions pass the value on: an unset name cannot be passed (that is an error by C05, not a truth value)
+		r.Exclude("value-needed")
+		return nil
+	}
+	if k.mk != nil && !c.Literal && (sp.name == "" || sp.pre != "") {
 		data["v"] = k.mk()
 	}
 	if k.helper != nil {
-		data["hv"] = func() interface{} { return k.helper() }
+		data["hv"] = func() interface{} { calls++; return k.helper() }
+	}
+	if k.hfn != nil {
+		data["hv"] = k.hfn(&calls)
+	}
+	truthy := k.truthy
+	if k.uniform {
+		// the reference is what the plain if makes of the same spelling
+		base := vk.Safe(func() (string, error) {
+			return plush.Render(sp.pre+fmt.Sprintf(positions[0].tmpl, spelling), plush.NewContextWith(data))
+		})
+		if base.Panicked() || base.Err != nil || (base.Out != "T" && base.Out != "F") {
+			r.Exclude("unspecified")
+			return nil
+		}
+		truthy = base.Out == "T"
+		calls = 0
 	}
 	res := vk.Safe(func() (string, error) { return plush.Render(src, plush.NewContextWith(data)) })
-	want := expectFor(p.name, k.truthy)
-	nt := fmt.Sprintf("%s|%s|%v", k.name, p.name, c.Literal)
-	r.Count(nt, "truth/"+p.name)
+	want := expectFor(p.name, truthy)
+	nt := fmt.Sprintf("%s|%s|%v|%s", k.name, p.name, c.Literal, sp.name)
+	class := "truth/" + p.name
+	if k.uniform {
+		class = "truth-uniform/" + p.name
+	}
+	if sp.name != "" {
+		class += " via " + sp.name
+	}
+	r.Count(nt, class)
 	r.Sample(func() interface{} {
 		return map[string]interface{}{"value": k.name, "position": p.name, "template": src, "expected": want}
 	})
 	if res.Panicked() || res.Err != nil || res.Out != want {
-		return &vk.Fail{Kind: "truth", Case: c, Msg: fmt.Sprintf("value %q tested as %q: %s gave %s, want %q (the value is %s everywhere)", k.name, p.name, src, res, want, map[bool]string{true: "truthy", false: "falsy"}[k.truthy])}
+		return &vk.Fail{Kind: "truth", Case: c, Msg: fmt.Sprintf("value %q tested as %q: %s gave %s, want %q (the value is %s everywhere)", k.name, p.name, src, res, want, map[bool]string{true: "truthy", false: "falsy"}[truthy])}
+	}
+	// a tested expression is evaluated once (conditions carry side-effect counters); the positions that spell the value
+	// twice around a logical operator are not counted: the statement does not speak of short-circuiting
+	if wantCalls := 1; counted && p.name != "v && v" && p.name != "v || v" && p.name != "if in contentFor block" {
+		if p.name == "statement forgiving again on every pass" {
+			wantCalls = 3
+		}
+		if calls != wantCalls {
+			return &vk.Fail{Kind: "truth", Case: c, Msg: fmt.Sprintf("value %q tested as %q: %s evaluated the tested call %d times, want %d", k.name, p.name, src, calls, wantCalls)}
+		}
 	}
 	return nil
 }
@@ -204,11 +462,19 @@ type SweepCase struct {
 const sweepBody = `<%= if (v) { %>T<% } else { %>F<% } %><%= if (false) { %>X<% } else if (v) { %>T<% } else { %>F<% } %>` +
 	`<%= if (!v) { %>F<% } else { %>T<% } %><%= if (v && true) { %>T<% } else { %>F<% } %><%= if (false || v) { %>T<% } else { %>F<% } %><%= !v %>,`
 
-func sweepable(k kind) bool {
-	if k.mk == nil {
-		return false // helper results, the unknown identifier and the nil literal are not values that can be passed on
+func sweepable(k kind) bool { return sweepableIn("fn", k) }
+
+// sweepableIn: which kinds can be one of the values of a sweep. A function argument must be a value (an unset name
+// cannot be passed on); an element of the slice a loop walks may also be nil; the data of one execution of a parsed
+// template may also leave the name unset.
+func sweepableIn(mode string, k kind) bool {
+	if k.uniform || k.helper != nil || k.hfn != nil {
+		return false
 	}
-	return k.mk() != nil
+	if k.mk == nil {
+		return strings.HasPrefix(mode, "exec") && k.lit == "" // the unknown identifier
+	}
+	return !strings.HasPrefix(mode, "fn") || k.mk() != nil
 }
 
 func checkSweep(r *vk.Run, c SweepCase) *vk.Fail {
@@ -219,7 +485,10 @@ func checkSweep(r *vk.Run, c SweepCase) *vk.Fail {
 	data := map[string]interface{}{}
 	for i, ki := range c.Kinds {
 		k := kinds[ki]
-		v := k.mk()
+		var v interface{}
+		if k.mk != nil {
+			v = k.mk()
+		}
 		vals = append(vals, v)
 		data[fmt.Sprintf("a%d", i)] = v
 		names = append(names, k.name)
@@ -231,6 +500,7 @@ func checkSweep(r *vk.Run, c SweepCase) *vk.Fail {
 	}
 	data["vals"] = vals
 	src := ""
+	var res vk.Res
 	switch c.Mode {
 	case "loop":
 		src = `<%= for (v) in vals { %>` + sweepBody + `<% } %>`
@@ -239,17 +509,74 @@ func checkSweep(r *vk.Run, c SweepCase) *vk.Fail {
 		for i := range c.Kinds {
 			src += fmt.Sprintf(`<%%= f(a%d) %%>`, i)
 		}
+	case "fn reads outer, let between calls", "fn reads outer, assignment between calls":
+		// the function body reads v of the enclosing scope; v is rebound between the calls
+		src = `<% let f = fn() { %>` + sweepBody + `<% } %>`
+		for i := range c.Kinds {
+			if i == 0 || strings.Contains(c.Mode, "let") {
+				src += fmt.Sprintf(`<%% let v = a%d %%><%%= f() %%>`, i)
+			} else {
+				src += fmt.Sprintf(`<%% v = a%d %%><%%= f() %%>`, i)
+			}
+		}
+	case "exec, one context":
+		// ONE parsed template and ONE context: the value is Set on the context before each execution
+		src = sweepBody
+		res = vk.Safe(func() (string, error) {
+			t, err := plush.NewTemplate(src)
+			if err != nil {
+				return "", err
+			}
+			ctx := plush.NewContext()
+			out := ""
+			for i := range c.Kinds {
+				ctx.Set("v", vals[i]) // nil unsets the name
+				s, err := t.Exec(ctx)
+				if err != nil {
+					return out, fmt.Errorf("execution %d: %w", i+1, err)
+				}
+				out += s
+			}
+			return out, nil
+		})
+	case "exec", "exec in loop":
+		// ONE parsed template, executed once per value with fresh data
+		src = sweepBody
+		if c.Mode == "exec in loop" {
+			src = `<%= for (i) in one { %>` + sweepBody + `<% } %>`
+		}
+		res = vk.Safe(func() (string, error) {
+			t, err := plush.NewTemplate(src)
+			if err != nil {
+				return "", err
+			}
+			out := ""
+			for i, ki := range c.Kinds {
+				d := map[string]interface{}{"one": []int{1}}
+				if kinds[ki].mk != nil {
+					d["v"] = vals[i]
+				}
+				s, err := t.Exec(plush.NewContextWith(d))
+				if err != nil {
+					return out, fmt.Errorf("execution %d: %w", i+1, err)
+				}
+				out += s
+			}
+			return out, nil
+		})
 	default:
 		return &vk.Fail{Kind: "decode", Msg: "unknown mode"}
 	}
-	res := vk.Safe(func() (string, error) { return plush.Render(src, plush.NewContextWith(data)) })
+	if !strings.HasPrefix(c.Mode, "exec") {
+		res = vk.Safe(func() (string, error) { return plush.Render(src, plush.NewContextWith(data)) })
+	}
 	nt := fmt.Sprintf("sweep|%v|%s", c.Kinds, c.Mode)
 	r.Count(nt, "sweep/"+c.Mode)
 	r.Sample(func() interface{} {
-		return map[string]interface{}{"values": names, "template": src, "expected": want}
+		return map[string]interface{}{"values": names, "template": src, "mode": c.Mode, "expected": want}
 	})
 	if res.Panicked() || res.Err != nil || res.Out != want {
-		return &vk.Fail{Kind: "sweep", Case: c, Msg: fmt.Sprintf("values %q tested one after the other by one set of sites: %s gave %s, want %q", names, src, res, want)}
+		return &vk.Fail{Kind: "sweep", Case: c, Msg: fmt.Sprintf("values %q tested one after the other by one set of sites (%s): %s gave %s, want %q", names, c.Mode, src, res, want)}
 	}
 	return nil
 }
@@ -261,6 +588,13 @@ type ChainCase struct {
 	Conds   []int `json:"conds"` // index into condVals
 	HasElse bool  `json:"else"`
 	Place   int   `json:"place"` // index into places
+	// Body: what the branch blocks hold. 0 = the text B<i>; 1 = nothing at all (the else block still holds E);
+	// 2 = two output tags printing B and i; 3 = odd branches empty, even ones B<i>
+	Body int `json:"body,omitempty"`
+	// Boom: every condition AFTER the first truthy one is spelled boom(i), a helper that fails: evaluating it is an error
+	Boom bool `json:"boom,omitempty"`
+	// BareFirst: the first condition is spelled bare (false, not c(1, false)): the parser sees a literal / a plain name
+	BareFirst bool `json:"bare_first,omitempty"`
 }
 
 var condVals = []struct {
@@ -279,6 +613,22 @@ var places = []struct {
 	{"in fn", `<% let f = fn() { %>`, `<% } %><%= f() %>|<%= f() %>`, 2},
 	{"in block helper", `<%= blk() { %>`, `<% } %>`, 1},
 	{"in if in for", `<%= for (i) in three { %><%= if (i) { %>`, `<% } %><% } %>`, 3},
+	// ---- added by the second widening pass (appended) ----
+	{"in else block", `<%= if (false) { %>X<% } else { %>`, `<% } %>`, 1},
+	{"in else-if block", `<%= if (nil) { %>X<% } else if (0) { %>`, `<% } else { %>Y<% } %>`, 1},
+	{"script in one tag", ``, ``, 1},       // <% if (..) { r = "B1" } else if (..) { r = "B2" } else { r = "E" } %><%= r %>
+	{"returns from a function", ``, ``, 2}, // fn() { if (..) { return "B1" } else if ... else { return "E" } return "" }, called twice
+	{"in block helper in for x3", `<%= for (i) in three { %><%= blk() { %>`, `<% } %><% } %>`, 3},
+}
+
+func chainBlock(body, i int) string {
+	switch {
+	case body == 1, body == 3 && i%2 == 1:
+		return ""
+	case body == 2:
+		return fmt.Sprintf(`<%%= "B" %%><%%= %d %%>`, i)
+	}
+	return fmt.Sprintf("B%d", i)
 }
 
 func checkChain(r *vk.Run, c ChainCase) *vk.Fail {
@@ -286,27 +636,63 @@ func checkChain(r *vk.Run, c ChainCase) *vk.Fail {
 	var sb strings.Builder
 	first := -1
 	for i, ci := range c.Conds {
-		cv := condVals[ci]
-		if i == 0 {
-			fmt.Fprintf(&sb, `<%%= if (c(%d, %s)) { %%>B%d`, i+1, cv.spell, i+1)
-		} else {
-			fmt.Fprintf(&sb, `<%% } else if (c(%d, %s)) { %%>B%d`, i+1, cv.spell, i+1)
-		}
-		if cv.truthy && first < 0 {
+		if condVals[ci].truthy {
 			first = i
+			break
 		}
 	}
-	if c.HasElse {
-		sb.WriteString(`<% } else { %>E`)
-	}
-	sb.WriteString(`<% } %>`)
 	pl := places[c.Place]
+	script := pl.name == "script in one tag" || pl.name == "returns from a function"
+	if script && c.Body != 0 {
+		return &vk.Fail{Kind: "decode", Msg: "script placements have no block bodies"}
+	}
+	stmt := `r = "%s"`
+	if pl.name == "returns from a function" {
+		stmt = `return "%s"`
+	}
+	for i, ci := range c.Conds {
+		cond := fmt.Sprintf("c(%d, %s)", i+1, condVals[ci].spell)
+		if i == 0 && c.BareFirst {
+			cond = condVals[ci].spell
+		}
+		if c.Boom && first >= 0 && i > first {
+			cond = fmt.Sprintf("boom(%d)", i+1)
+		}
+		switch {
+		case script && i == 0:
+			fmt.Fprintf(&sb, `if (%s) { `+stmt+` }`, cond, fmt.Sprintf("B%d", i+1))
+		case script:
+			fmt.Fprintf(&sb, ` else if (%s) { `+stmt+` }`, cond, fmt.Sprintf("B%d", i+1))
+		case i == 0:
+			fmt.Fprintf(&sb, `<%%= if (%s) { %%>%s`, cond, chainBlock(c.Body, i+1))
+		default:
+			fmt.Fprintf(&sb, `<%% } else if (%s) { %%>%s`, cond, chainBlock(c.Body, i+1))
+		}
+	}
+	switch {
+	case script && c.HasElse:
+		fmt.Fprintf(&sb, ` else { `+stmt+` }`, "E")
+	case script:
+	case c.HasElse:
+		sb.WriteString(`<% } else { %>E<% } %>`)
+	default:
+		sb.WriteString(`<% } %>`)
+	}
 	src := pl.pre + sb.String() + pl.post
+	switch pl.name {
+	case "script in one tag":
+		src = `<% let r = "" %><% ` + sb.String() + ` %><%= r %>`
+	case "returns from a function":
+		src = `<% let f = fn() { ` + sb.String() + ` return "" } %><%= f() %>|<%= f() %>`
+	}
 	one := ""
 	var oneTrace []int
 	switch {
 	case first >= 0:
 		one = fmt.Sprintf("B%d", first+1)
+		if c.Body == 1 || (c.Body == 3 && (first+1)%2 == 1) {
+			one = ""
+		}
 		for i := 0; i <= first; i++ {
 			oneTrace = append(oneTrace, i+1)
 		}
@@ -318,8 +704,11 @@ func checkChain(r *vk.Run, c ChainCase) *vk.Fail {
 			oneTrace = append(oneTrace, i+1)
 		}
 	}
+	if c.BareFirst {
+		oneTrace = oneTrace[1:]
+	}
 	want := strings.Repeat(one, pl.reps)
-	if pl.name == "in fn" {
+	if pl.name == "in fn" || pl.name == "returns from a function" {
 		want = one + "|" + one
 	}
 	var wantTrace []int
@@ -332,10 +721,25 @@ func checkChain(r *vk.Run, c ChainCase) *vk.Fail {
 		"blk": func(h plush.HelperContext) (template.HTML, error) { s, err := h.Block(); return template.HTML(s), err },
 		"c":   func(i int, v interface{}) interface{} { trace = append(trace, i); return v },
 		"hn":  func() interface{} { return nil },
+		"boom": func(i int) (interface{}, error) {
+			trace = append(trace, -i)
+			return nil, fmt.Errorf("condition %d was evaluated", i)
+		},
 	}
 	res := vk.Safe(func() (string, error) { return plush.Render(src, plush.NewContextWith(data)) })
 	b, _ := json.Marshal(c)
-	r.Count(string(b), "chain/"+pl.name)
+	class := "chain/" + pl.name
+	switch {
+	case len(c.Conds) > 4:
+		class = "chain/long/" + pl.name
+	case c.Body != 0:
+		class = fmt.Sprintf("chain/body %d/%s", c.Body, pl.name)
+	case c.Boom:
+		class = "chain/later conditions fail/" + pl.name
+	case c.BareFirst:
+		class = "chain/bare first condition/" + pl.name
+	}
+	r.Count(string(b), class)
 	r.Sample(func() interface{} {
 		return map[string]interface{}{"template": src, "expected": want, "conditions evaluated": wantTrace}
 	})
@@ -348,11 +752,163 @@ func checkChain(r *vk.Run, c ChainCase) *vk.Fail {
 	return nil
 }
 
+// ---- part B2: one chain, truth assignments that change between evaluations ----------------------
+
+// RowsCase: ONE chain of k branches whose conditions read the k values of a row; the chain is evaluated once per row -
+// as a loop body over the rows, as the body of a template function called once per row, or as a parsed template
+// executed once per row. Which branch was taken (and which conditions were evaluated) for the previous row may not
+// matter for this one.
+type RowsCase struct {
+	Rows    [][]int `json:"rows"` // each row: k indexes into rowVals
+	HasElse bool    `json:"else"`
+	Mode    string  `json:"mode"` // loop | fn | exec
+	Bare    bool    `json:"bare"` // conditions spelled r[j] instead of c(j+1, r[j])
+	// Field: a row is a struct, the values are its fields A..D (r.A instead of r[0])
+	Field bool `json:"field,omitempty"`
+}
+
+type rowS struct{ A, B, C, D interface{} }
+
+var rowVals = []struct {
+	name   string
+	mk     func() interface{}
+	truthy bool
+}{
+	{"true", func() interface{} { return true }, true},
+	{"false", func() interface{} { return false }, false},
+	{`""`, func() interface{} { return "" }, false},
+	{"0", func() interface{} { return 0 }, true},
+	{"nil", func() interface{} { return nil }, false},
+	{`"x"`, func() interface{} { return "x" }, true},
+	{"[]", func() interface{} { return []int{} }, true},
+	{"nil *struct", func() interface{} { return (*pt)(nil) }, false},
+	{"*struct", func() interface{} { return &pt{} }, true},
+	{"empty HTML", func() interface{} { return template.HTML("") }, false},
+}
+
+func checkRows(r *vk.Run, c RowsCase) *vk.Fail {
+	defer r.Watch("rows", c)()
+	k := len(c.Rows[0])
+	var sb strings.Builder
+	for j := 0; j < k; j++ {
+		operand := fmt.Sprintf("r[%d]", j)
+		if c.Field {
+			operand = "r." + string(rune('A'+j))
+		}
+		cond := fmt.Sprintf("c(%d, %s)", j+1, operand)
+		if c.Bare {
+			cond = operand
+		}
+		if j == 0 {
+			fmt.Fprintf(&sb, `<%%= if (%s) { %%>B%d`, cond, j+1)
+		} else {
+			fmt.Fprintf(&sb, `<%% } else if (%s) { %%>B%d`, cond, j+1)
+		}
+	}
+	if c.HasElse {
+		sb.WriteString(`<% } else { %>E`)
+	}
+	sb.WriteString(`<% } %>,`)
+	chain := sb.String()
+	var rows []interface{}
+	var shown [][]string
+	want := ""
+	var wantTrace []int
+	for _, row := range c.Rows {
+		var vals []interface{}
+		var names []string
+		hit := false
+		for j, vi := range row {
+			vals = append(vals, rowVals[vi].mk())
+			names = append(names, rowVals[vi].name)
+			if !hit {
+				wantTrace = append(wantTrace, j+1)
+				if rowVals[vi].truthy {
+					hit = true
+					want += fmt.Sprintf("B%d", j+1)
+				}
+			}
+		}
+		if !hit && c.HasElse {
+			want += "E"
+		}
+		want += ","
+		if c.Field {
+			for len(vals) < 4 {
+				vals = append(vals, nil)
+			}
+			rows = append(rows, rowS{vals[0], vals[1], vals[2], vals[3]})
+		} else {
+			rows = append(rows, vals)
+		}
+		shown = append(shown, names)
+	}
+	var trace []int
+	helpers := func(d map[string]interface{}) map[string]interface{} {
+		d["c"] = func(i int, v interface{}) interface{} { trace = append(trace, i); return v }
+		return d
+	}
+	src := ""
+	var res vk.Res
+	switch c.Mode {
+	case "loop":
+		src = `<%= for (r) in rows { %>` + chain + `<% } %>`
+		res = vk.Safe(func() (string, error) {
+			return plush.Render(src, plush.NewContextWith(helpers(map[string]interface{}{"rows": rows})))
+		})
+	case "fn":
+		src = `<% let f = fn(r) { %>` + chain + `<% } %>`
+		d := helpers(map[string]interface{}{})
+		for i := range rows {
+			src += fmt.Sprintf(`<%%= f(r%d) %%>`, i)
+			d[fmt.Sprintf("r%d", i)] = rows[i]
+		}
+		res = vk.Safe(func() (string, error) { return plush.Render(src, plush.NewContextWith(d)) })
+	case "exec":
+		src = chain
+		res = vk.Safe(func() (string, error) {
+			t, err := plush.NewTemplate(src)
+			if err != nil {
+				return "", err
+			}
+			out := ""
+			for i := range rows {
+				s, err := t.Exec(plush.NewContextWith(helpers(map[string]interface{}{"r": rows[i]})))
+				if err != nil {
+					return out, fmt.Errorf("execution %d: %w", i+1, err)
+				}
+				out += s
+			}
+			return out, nil
+		})
+	default:
+		return &vk.Fail{Kind: "decode", Msg: "unknown mode"}
+	}
+	b, _ := json.Marshal(c)
+	if c.Field {
+		r.Count(string(b), "rows of structs/"+c.Mode)
+	} else {
+		r.Count(string(b), "rows/"+c.Mode)
+	}
+	r.Sample(func() interface{} {
+		return map[string]interface{}{"rows": shown, "mode": c.Mode, "template": src, "expected": want, "conditions evaluated": wantTrace}
+	})
+	if res.Panicked() || res.Err != nil || res.Out != want {
+		return &vk.Fail{Kind: "rows", Case: c, Msg: fmt.Sprintf("one chain evaluated for the rows %v (%s): %s gave %s, want %q", shown, c.Mode, src, res, want)}
+	}
+	if !c.Bare && !reflect.DeepEqual(trace, wantTrace) {
+		return &vk.Fail{Kind: "rows", Case: c, Msg: fmt.Sprintf("one chain evaluated for the rows %v (%s): %s evaluated conditions %v, want %v", shown, c.Mode, src, trace, wantTrace)}
+	}
+	return nil
+}
+
 // ---- part C: random nested chains against the reference interpreter ---------------
 
 type NestCase struct {
 	Src  string          `json:"src"` // informational: the canonical printing of Prog
 	Prog json.RawMessage `json:"prog"`
+	// Thrice: one parsed template, executed with the data, the flipped data, the data
+	Thrice bool `json:"thrice,omitempty"`
 }
 
 var leafSpells = []model.Expr{
@@ -372,7 +928,9 @@ func (g *nestGen) cond() model.Expr {
 	if v, ok := l.(model.Var); ok && v.Name == "unk" {
 		e = l // an unknown identifier is tolerated as the condition itself, not as a helper argument
 	}
-	switch rapid.IntRange(0, 9).Draw(g.t, "wrap") {
+	switch rapid.IntRange(0, 13).Draw(g.t, "wrap") {
+	case 10, 11, 12, 13: // a TREE of !, &&, || and parentheses (no parentheses but those the grammar needs) over recording calls
+		return g.tree(rapid.IntRange(1, 3).Draw(g.t, "treedepth"))
 	case 8: // a condition that is an ARITHMETIC expression: its int value (also 0) is truthy
 		g.ctr++
 		e = model.Bin{Op: rapid.SampledFrom([]string{"+", "-", "*"}).Draw(g.t, "aop"),
@@ -395,14 +953,46 @@ func (g *nestGen) cond() model.Expr {
 	return e
 }
 
+func (g *nestGen) atom() model.Expr {
+	g.ctr++
+	l := rapid.SampledFrom(leafSpells).Draw(g.t, "leaf")
+	if v, ok := l.(model.Var); ok && v.Name == "unk" {
+		return l
+	}
+	return model.Call{Fn: "c", Args: []model.Expr{model.Lit{V: g.ctr}, l}}
+}
+
+func (g *nestGen) tree(depth int) model.Expr {
+	if depth <= 0 {
+		return g.atom()
+	}
+	switch rapid.IntRange(0, 6).Draw(g.t, "tree") {
+	case 0:
+		return model.Not{X: g.tree(depth - 1)}
+	case 1, 2:
+		return model.Bin{Op: "&&", L: g.tree(depth - 1), R: g.tree(depth - 1)}
+	case 3, 4:
+		return model.Bin{Op: "||", L: g.tree(depth - 1), R: g.tree(depth - 1)}
+	case 5:
+		return model.Paren{X: g.tree(depth - 1)}
+	}
+	return g.atom()
+}
+
 func (g *nestGen) nodes(depth int) []model.Node {
 	n := rapid.IntRange(0, 3).Draw(g.t, "n")
 	var out []model.Node
 	for i := 0; i < n; i++ {
 		g.ctr++
-		switch k := rapid.IntRange(0, 5).Draw(g.t, "node"); {
+		switch k := rapid.IntRange(0, 7).Draw(g.t, "node"); {
 		case k <= 1 || depth <= 0:
 			out = append(out, model.Text{S: fmt.Sprintf("[t%d]", g.ctr)})
+		case k == 6: // a function of the template, called twice
+			name := fmt.Sprintf("g%d", g.ctr)
+			out = append(out, model.Code{S: model.LetS{Name: name, X: model.FnLit{Body: g.nodes(depth - 1)}}},
+				model.Emit{X: model.Call{Fn: name}}, model.Text{S: "~"}, model.Emit{X: model.Call{Fn: name}})
+		case k == 7: // the block of a block helper
+			out = append(out, model.EmitBlock{Helper: "blk", Body: g.nodes(depth - 1)})
 		case k == 2:
 			out = append(out, model.EmitFor{For: &model.For{Val: "i", Iter: model.Var{Name: "two"}, Body: g.nodes(depth - 1)}})
 		default:
@@ -420,56 +1010,105 @@ func (g *nestGen) nodes(depth int) []model.Node {
 	return out
 }
 
-func checkNest(r *vk.Run, prog []model.Node) *vk.Fail {
+func checkNest(r *vk.Run, prog []model.Node, thrice bool) *vk.Fail {
 	src := model.Printer{}.Nodes(prog)
-	c := NestCase{Src: src, Prog: model.Encode(prog)}
+	c := NestCase{Src: src, Prog: model.Encode(prog), Thrice: thrice}
 	return checkNestSrc(r, prog, src, c)
+}
+
+// the data of a nested program; the second set flips what the leaves t, f and es are worth and shortens the loops
+func nestData(flipped bool) map[string]interface{} {
+	if flipped {
+		return map[string]interface{}{"two": []interface{}{1}, "es": "", "t": false, "f": true}
+	}
+	return map[string]interface{}{"two": []interface{}{1, 2}, "es": []interface{}{}, "t": true, "f": false}
+}
+
+func nestContext(data map[string]interface{}, helpers map[string]model.Helper) *plush.Context {
+	ctx := model.Context(data, helpers)
+	ctx.Set("blk", func(h plush.HelperContext) (template.HTML, error) { s, err := h.Block(); return template.HTML(s), err })
+	return ctx
 }
 
 func checkNestSrc(r *vk.Run, prog []model.Node, src string, c NestCase) *vk.Fail {
 	defer r.Watch("nest", c)()
-	data := map[string]interface{}{"two": []interface{}{1, 2}, "es": []interface{}{}, "t": true, "f": false}
-	var mtrace, ptrace []int
 	mk := func(tr *[]int) map[string]model.Helper {
 		return map[string]model.Helper{"c": func(a []interface{}) (interface{}, error) { *tr = append(*tr, a[0].(int)); return a[1], nil }}
 	}
-	want := model.Run(prog, data, mk(&mtrace))
-	if want.Unspec != "" {
-		r.Exclude("unspecified")
-		return nil
+	// Thrice: ONE parsed template executed with the data, with the flipped data, and with the data again
+	runs := []bool{false}
+	if c.Thrice {
+		runs = []bool{false, true, false}
 	}
-	res := vk.Safe(func() (string, error) { return plush.Render(src, model.Context(data, mk(&ptrace))) })
-	nt := ""
-	if strings.Count(src, "if (") >= 2 {
-		nt = src
-	}
-	r.Count(nt, "nested")
-	if nt != "" {
-		r.Sample(func() interface{} {
-			return map[string]interface{}{"template": src, "expected": want.Out, "conditions evaluated": mtrace}
+	var tmpl *plush.Template
+	for i, flipped := range runs {
+		var mtrace, ptrace []int
+		want := model.Run(prog, nestData(flipped), mk(&mtrace))
+		if want.Unspec != "" {
+			r.Exclude("nested-unspecified")
+			return nil
+		}
+		res := vk.Safe(func() (string, error) {
+			if !c.Thrice {
+				return plush.Render(src, nestContext(nestData(flipped), mk(&ptrace)))
+			}
+			if tmpl == nil {
+				t, err := plush.NewTemplate(src)
+				if err != nil {
+					return "", err
+				}
+				tmpl = t
+			}
+			return tmpl.Exec(nestContext(nestData(flipped), mk(&ptrace)))
 		})
-	}
-	if res.Panicked() || (res.Err != nil) != (want.Err != "") || !match.SameText(res.Out, want.Out) {
-		return &vk.Fail{Kind: "nest", Case: c, Msg: fmt.Sprintf("%s gave %s, reference says out=%q err=%q", src, res, want.Out, want.Err)}
-	}
-	if want.Err == "" && !reflect.DeepEqual(mtrace, ptrace) {
-		return &vk.Fail{Kind: "nest", Case: c, Msg: fmt.Sprintf("%s evaluated conditions %v, reference says %v", src, ptrace, mtrace)}
+		if i == 0 {
+			nt := ""
+			if strings.Count(src, "if (") >= 2 {
+				nt = src
+				if c.Thrice {
+					nt += "|thrice"
+				}
+			}
+			if c.Thrice {
+				r.Count(nt, "nested, one template executed three times")
+			} else {
+				r.Count(nt, "nested")
+			}
+			if nt != "" {
+				r.Sample(func() interface{} {
+					return map[string]interface{}{"template": src, "expected": want.Out, "conditions evaluated": mtrace}
+				})
+			}
+		}
+		if res.Panicked() || (res.Err != nil) != (want.Err != "") || !match.SameText(res.Out, want.Out) {
+			return &vk.Fail{Kind: "nest", Case: c, Msg: fmt.Sprintf("%s (execution %d of %d) gave %s, reference says out=%q err=%q", src, i+1, len(runs), res, want.Out, want.Err)}
+		}
+		if want.Err == "" && !reflect.DeepEqual(mtrace, ptrace) {
+			return &vk.Fail{Kind: "nest", Case: c, Msg: fmt.Sprintf("%s (execution %d of %d) evaluated conditions %v, reference says %v", src, i+1, len(runs), ptrace, mtrace)}
+		}
+		if want.Err != "" {
+			break
+		}
 	}
 	return nil
 }
 
-const rule = "(A, exhaustive) 58 value kinds (nil, bools, nil slices / maps / funcs (truthy: not nil pointers), strings incl. \"false\"/\"0\", trusted HTML, typed nil pointers, non-nil pointers to zero values, unknown identifier, nil context value, every numeric width at 0, empty and non-empty slices/arrays/maps/structs, func, iterator, time, helper results) x 23 test positions (if, else-if, second else-if, !, !!, &&/|| on either side, emitted ! && ||, inside for / function / block helper, silent if, && in a silent tag, and five sequences in which a name is first tested while unknown, then bound by a loop variable / parameter / helper-context data and tested again), via a variable and via the literal spelling where one exists: the truth value must be the same everywhere and equal the table in the property. plus 13 conditions that are arithmetic / concatenation expressions (value tested, e.g. 0 + 0 is truthy, \"\" + \"\" falsy) x 6 positions. (A2, exhaustive + random) one set of six test sites (if, else-if, !, && , ||, emitted !) evaluated for several values in turn within one render - loop body over a slice of the values, or a template function called once per value: every ordered pair (A, B) of the 44 passable value kinds tested A, B, A, and random sequences of 2-8 kinds. (B, exhaustive) every chain of 1..4 branches x every assignment of 9 condition values x with/without else x 5 placements, each condition wrapped in a recording helper: output = block of the first truthy branch, conditions evaluated = exactly the prefix up to it. (C, random) nested if/else-if/else chains with !, && and || conditions inside loops, compared with the reference interpreter incl. the evaluation trace. Non-trivial: every matrix cell and chain is (distinct by cell / chain / template)."
+const rule = "(A, exhaustive) 122 value kinds (nil, bools, nil slices / maps / funcs / chans (truthy: not nil pointers), strings incl. \"false\"/\"0\"/\"nil\"/newline/NUL, trusted HTML, typed nil pointers incl. nil pointers to pointers, to iterators and stored through an interface type, non-nil pointers to zero values and to nil pointers, values that PRINT as nothing (Stringer / HTMLer / error with empty text: truthy, they are not the empty string), unknown identifier, nil context value, every numeric width at 0, NaN, -0, complex, uintptr, empty and non-empty slices/arrays/maps/structs, func, iterator, time, results of helpers with 16 result signatures; 5 kinds the statement is silent about - empty values of other string types, nil unsafe.Pointer - are checked for uniformity only, against the plain if) x 61 test positions (if, else-if, second and fifth else-if, !, !!, !!!, !(!v), parenthesised, &&/|| on either side, v && v, v || v, three-operand and mixed ! && || forms, emitted ! !! && ||, inside for / function / block helper / contentFor and their combinations, inside the then / else / else-if block of another chain, returned from a function, a chain written in one tag, silent if, compact and multi-line spellings, five sequences in which a name is first tested while unknown and then bound, five positions where the same statement has forgiven another unknown identifier before / after / on every pass of a loop, under 20 levels of else / then blocks) x 14 ways the value reaches the site (variable, variables named like keyword prefixes - nilx falsey iffy elsewhere -, literal, helper call, map index, slice index, struct field, field of an indexed element / of a map element / of a call result, method result, result of a template function): the truth value must be the same everywhere and equal the table in the property; a tested helper call is evaluated exactly once. plus 13 conditions that are arithmetic / concatenation expressions x 6 positions. (A2, exhaustive + random) one set of six test sites evaluated for several values in turn - loop body over a slice of the values (nil elements too), template function called once per value, template function reading an outer variable that is rebound by let / by assignment between the calls, ONE parsed template executed once per value with fresh data (nil and unset too; sites at top level or in a loop), ONE parsed template and ONE context whose value is Set before each execution: every pair (A, B) of the value kinds tested A, B, A (quick: unordered pairs, thorough: ordered), and random sequences of 2-8 kinds. (B, exhaustive) every chain of 1..4 branches x every assignment of 9 condition values x with/without else x 10 placements (top, loop, function, block helper, if in loop, else block, else-if block, a script in one tag assigning a variable, a function returning from the branches, block helper in loop), each condition wrapped in a recording helper: output = block of the first truthy branch, conditions evaluated = exactly the prefix up to it; for 1..3 branches also with empty / output-tag / mixed blocks, with every later condition replaced by a helper that fails when evaluated, and with a bare first condition; chains of 5..12 branches with the first truthy condition at every position. (B2, exhaustive + random) ONE chain evaluated for a sequence of rows of truth assignments (conditions read r[j] or the field r.A of the row, bare or through the recording helper) as loop body / function body / parsed template executed per row: every ordered pair of assignments of 2 branches over 4 values as A, B, A, and random 1..4 branches x 2..6 rows over 10 values. (C, random) nested if/else-if/else chains whose conditions are trees of !, &&, || and parentheses (depth <= 3, only the parentheses the grammar needs) over recording calls, arithmetic and concatenation, inside loops, template functions called twice and block helpers, compared with the reference interpreter incl. the evaluation trace; a quarter of them as one parsed template executed with the data, with flipped data, and with the data again. Non-trivial: every matrix cell, chain and row sequence is (distinct by cell / chain / template)."
 
 func setup(t *testing.T) *vk.Run {
 	r := vk.Start(t, "C07", rule,
 		"the zero values of slice, map and func types are in the table as truthy: the statement lists what is falsy (nil, false, the empty string, empty HTML, nil pointers, unknown identifiers) and calls every other value, empty collections included, truthy",
-		"conditions must be spelled as identifiers, literals, calls, index, prefix or infix expressions: other forms are rejected by the parser before evaluation")
+		"conditions must be spelled as identifiers, literals, calls, index, prefix or infix expressions: other forms are rejected by the parser before evaluation",
+		"a value that prints as nothing (a Stringer, HTMLer or error with empty text) is a struct / pointer, not the empty string or empty HTML: truthy; a non-nil pointer is truthy whatever it points to (a nil pointer included)",
+		"empty values of string types other than string and template.HTML, and a nil unsafe.Pointer, are not placed by the statement: only 'the same truth value wherever it is tested' is asserted for them",
+		"what a struct field or method yields for a stored non-nil pointer (C11) and whether an interface{} result holding an error value is a failed call (C12) are other properties' matters: those cells are excluded, not asserted",
+		"a tested helper call is evaluated exactly once per evaluation of its test site (the statement's side-effect counters); the two positions that spell the value on both sides of one && / || are not counted, short-circuiting is not part of this statement")
 	r.Replayer("truth", func(raw json.RawMessage) *vk.Fail {
 		var c TruthCase
 		if f := vk.Decode(raw, &c); f != nil {
 			return f
 		}
-		if c.Kind < 0 || c.Kind >= len(kinds) || c.Position < 0 || c.Position >= len(positions) {
+		if c.Kind < 0 || c.Kind >= len(kinds) || c.Position < 0 || c.Position >= len(positions) || c.Spell < 0 || c.Spell >= len(spells) {
 			return &vk.Fail{Kind: "decode", Msg: "index out of range"}
 		}
 		return checkTruth(r, c)
@@ -484,7 +1123,7 @@ func setup(t *testing.T) *vk.Run {
 				return &vk.Fail{Kind: "decode", Msg: "index out of range"}
 			}
 		}
-		if c.Place < 0 || c.Place >= len(places) || len(c.Conds) == 0 {
+		if c.Place < 0 || c.Place >= len(places) || len(c.Conds) == 0 || c.Body < 0 || c.Body > 3 {
 			return &vk.Fail{Kind: "decode", Msg: "index out of range"}
 		}
 		return checkChain(r, c)
@@ -495,11 +1134,34 @@ func setup(t *testing.T) *vk.Run {
 			return f
 		}
 		for _, k := range c.Kinds {
-			if k < 0 || k >= len(kinds) || !sweepable(kinds[k]) {
+			if k < 0 || k >= len(kinds) || !sweepableIn(c.Mode, kinds[k]) {
 				return &vk.Fail{Kind: "decode", Msg: "kind cannot be swept"}
 			}
 		}
 		return checkSweep(r, c)
+	})
+	r.Replayer("rows", func(raw json.RawMessage) *vk.Fail {
+		var c RowsCase
+		if f := vk.Decode(raw, &c); f != nil {
+			return f
+		}
+		if len(c.Rows) == 0 || len(c.Rows[0]) == 0 {
+			return &vk.Fail{Kind: "decode", Msg: "no rows"}
+		}
+		for _, row := range c.Rows {
+			if len(row) != len(c.Rows[0]) {
+				return &vk.Fail{Kind: "decode", Msg: "rows of different lengths"}
+			}
+			for _, x := range row {
+				if x < 0 || x >= len(rowVals) || (c.Field && rowVals[x].name == "*struct") {
+					return &vk.Fail{Kind: "decode", Msg: "index out of range"}
+				}
+			}
+		}
+		if len(c.Rows[0]) > 4 {
+			return &vk.Fail{Kind: "decode", Msg: "at most four branches"}
+		}
+		return checkRows(r, c)
 	})
 	r.Replayer("arith", func(raw json.RawMessage) *vk.Fail {
 		var c map[string]string
@@ -523,7 +1185,7 @@ func setup(t *testing.T) *vk.Run {
 		if err != nil {
 			return &vk.Fail{Kind: "decode", Msg: err.Error()}
 		}
-		return checkNest(r, prog)
+		return checkNest(r, prog, c.Thrice)
 	})
 	return r
 }
@@ -536,16 +1198,22 @@ func TestProp(t *testing.T) {
 	r.ReplayCommitted()
 
 	var n int64
+	var cells []TruthCase
 	for ki, k := range kinds {
+		litOnly := k.lit != "" && k.mk == nil && k.helper == nil && k.hfn == nil && ki != 0
 		for pi := range positions {
-			r.Check(checkTruth(r, TruthCase{Kind: ki, Position: pi}))
-			n++
-			if k.lit != "" && k.helper == nil {
-				r.Check(checkTruth(r, TruthCase{Kind: ki, Position: pi, Literal: true}))
-				n++
+			for si, sp := range spells {
+				if !litOnly {
+					cells = append(cells, TruthCase{Kind: ki, Position: pi, Spell: si})
+				}
+				if k.lit != "" && k.helper == nil && (si == 0 || sp.pre != "") {
+					cells = append(cells, TruthCase{Kind: ki, Position: pi, Literal: true, Spell: si})
+				}
 			}
 		}
 	}
+	n = int64(len(cells))
+	r.Parallel(n, 0, func(i int64) { r.Check(checkTruth(r, cells[i])) })
 	// conditions that are arithmetic / concatenation expressions (their value is tested, not a bool)
 	arith := []struct {
 		cond   string
@@ -578,32 +1246,34 @@ func TestProp(t *testing.T) {
 			}
 		}
 	}
-	r.Subspace("truth table: value kinds x test positions (variable and literal spellings) + 13 arithmetic/concatenation conditions x 6 positions", n, true)
+	r.Subspace(fmt.Sprintf("truth table: %d value kinds x %d test positions x %d ways the value reaches the site (variable / literal / helper call, map index, slice index, struct field, result of a template function) + 13 arithmetic/concatenation conditions x 6 positions", len(kinds), len(positions), len(spells)), n, true)
 
 	// A2: every ordered pair of passable value kinds, tested A, B, A by one set of sites
-	var sw []int
+	modes := []string{"loop", "fn", "exec", "exec in loop", "exec, one context", "fn reads outer, let between calls", "fn reads outer, assignment between calls"}
+	sw := map[string][]int{}
 	for ki, k := range kinds {
-		if sweepable(k) {
-			sw = append(sw, ki)
+		for _, m := range modes {
+			if sweepableIn(m, k) {
+				sw[m] = append(sw[m], ki)
+			}
 		}
 	}
-	var ns int64
-	for _, a := range sw {
-		for _, b := range sw {
-			if a == b {
-				continue
-			}
-			for _, mode := range []string{"loop", "fn"} {
-				if r.Mine(ns) {
-					r.Check(checkSweep(r, SweepCase{Kinds: []int{a, b, a}, Mode: mode}))
+	var sweeps []SweepCase
+	for _, mode := range modes {
+		for _, a := range sw[mode] {
+			for _, b := range sw[mode] {
+				if a != b && (a < b || !r.Quick()) { // quick: A, B, A for every unordered pair (both transitions are still made)
+					sweeps = append(sweeps, SweepCase{Kinds: []int{a, b, a}, Mode: mode})
 				}
-				ns++
 			}
 		}
 	}
-	r.Subspace("sweeps: every ordered pair (A, B) of passable value kinds tested A, B, A by one set of six test sites x {loop body, function body}", ns, true)
-	r.Rapid("sweeps", r.Pick(300, 5000), func(t *rapid.T) *vk.Fail {
-		return checkSweep(r, SweepCase{Kinds: rapid.SliceOfN(rapid.SampledFrom(sw), 2, 8).Draw(t, "kinds"), Mode: rapid.SampledFrom([]string{"loop", "fn"}).Draw(t, "mode")})
+	ns := int64(len(sweeps))
+	r.Parallel(ns, 0, func(i int64) { r.Check(checkSweep(r, sweeps[i])) })
+	r.Subspace("sweeps: every pair (A, B) of value kinds tested A, B, A by one set of six test sites x {loop body (nil elements too), function body, function body reading a variable rebound by let / by assignment between the calls, one parsed template executed three times (nil and unset too), the same with the sites inside a loop, the same with ONE context whose value is Set before each execution}", ns, true)
+	r.Rapid("sweeps", r.Pick(400, 6000), func(t *rapid.T) *vk.Fail {
+		mode := rapid.SampledFrom(modes).Draw(t, "mode")
+		return checkSweep(r, SweepCase{Kinds: rapid.SliceOfN(rapid.SampledFrom(sw[mode]), 2, 8).Draw(t, "kinds"), Mode: mode})
 	})
 
 	maxB := 4
@@ -618,7 +1288,7 @@ func TestProp(t *testing.T) {
 			// quick: every truth assignment at 4 branches, but only values {true,false,"",0,nil}
 			continue
 		}
-		r.Subspace(fmt.Sprintf("chains of %d branches x 9 condition values x else/no else x 5 placements", b), cells, true)
+		r.Subspace(fmt.Sprintf("chains of %d branches x 9 condition values x else/no else x %d placements", b, len(places)), cells, true)
 		r.Parallel(cells, 0, func(i int64) {
 			c := ChainCase{Place: int(i % int64(len(places))), HasElse: (i/int64(len(places)))%2 == 1}
 			j := i / int64(len(places)) / 2
@@ -646,11 +1316,99 @@ func TestProp(t *testing.T) {
 				}
 			}
 		}
-		r.Subspace("chains of 4 branches x 5 condition values x else/no else x 5 placements", cnt, true)
+		r.Subspace(fmt.Sprintf("chains of 4 branches x 5 condition values x else/no else x %d placements", len(places)), cnt, true)
 	}
+
+	// chains: block bodies (empty, output tags, mixed), failing later conditions, bare first condition - 1..3 branches
+	var extra []ChainCase
+	for b := 1; b <= 3; b++ {
+		base := int(nv)
+		if r.Quick() && b == 3 {
+			base = 5 // quick: three branches over {true, false, "", 0, nil} only
+		}
+		total := 1
+		for i := 0; i < b; i++ {
+			total *= base
+		}
+		for j := 0; j < total; j++ {
+			conds, x := []int{}, j
+			for k := 0; k < b; k++ {
+				conds = append(conds, x%base)
+				x /= base
+			}
+			for pl := range places {
+				script := places[pl].pre == "" && places[pl].name != "top"
+				for _, e := range []bool{false, true} {
+					if !script {
+						for body := 1; body <= 3; body++ {
+							extra = append(extra, ChainCase{Conds: conds, HasElse: e, Place: pl, Body: body})
+						}
+					}
+					extra = append(extra, ChainCase{Conds: conds, HasElse: e, Place: pl, Boom: true})
+					extra = append(extra, ChainCase{Conds: conds, HasElse: e, Place: pl, BareFirst: true})
+					if !script {
+						extra = append(extra, ChainCase{Conds: conds, HasElse: e, Place: pl, BareFirst: true, Boom: true, Body: 3})
+					}
+				}
+			}
+		}
+	}
+	// long chains: 5..12 branches, the first truthy condition at every position (and nowhere), what follows all falsy or all truthy
+	falsyVals, truthyVals := []int{1, 2, 4, 6, 8}, []int{0, 3, 5, 7}
+	for nb := 5; nb <= 12; nb++ {
+		for firstAt := 0; firstAt <= nb; firstAt++ {
+			for _, tail := range []bool{false, true} {
+				conds := []int{}
+				for i := 0; i < nb; i++ {
+					switch {
+					case i == firstAt, i > firstAt && tail:
+						conds = append(conds, truthyVals[(i+nb)%len(truthyVals)])
+					default:
+						conds = append(conds, falsyVals[(i+firstAt)%len(falsyVals)])
+					}
+				}
+				for pl := range places {
+					for _, e := range []bool{false, true} {
+						extra = append(extra, ChainCase{Conds: conds, HasElse: e, Place: pl})
+						extra = append(extra, ChainCase{Conds: conds, HasElse: e, Place: pl, Boom: true})
+					}
+				}
+			}
+		}
+	}
+	r.Subspace("chains of 1..3 branches x 9 condition values x else/no else x 10 placements x {empty blocks, output-tag blocks, mixed blocks, later conditions that fail when evaluated, bare first condition}; chains of 5..12 branches with the first truthy condition at every position", int64(len(extra)), true)
+	r.Parallel(int64(len(extra)), 0, func(i int64) { r.Check(checkChain(r, extra[i])) })
+
+	// B2: one chain, rows of truth assignments. Exhaustive: 2 branches, every ordered pair of rows over {true, false, "", 0}
+	var rowCases []RowsCase
+	for a := 0; a < 16; a++ {
+		for b := 0; b < 16; b++ {
+			for _, mode := range []string{"loop", "fn", "exec"} {
+				for _, e := range []bool{false, true} {
+					for _, bare := range []bool{false, true} {
+						for _, field := range []bool{false, true} {
+							rowCases = append(rowCases, RowsCase{Rows: [][]int{{a % 4, a / 4}, {b % 4, b / 4}, {a % 4, a / 4}}, HasElse: e, Mode: mode, Bare: bare, Field: field})
+						}
+					}
+				}
+			}
+		}
+	}
+	r.Subspace("rows: one chain of 2 branches evaluated for the rows A, B, A - every ordered pair of truth assignments over {true, false, \"\", 0} x {loop body, function body, parsed template executed per row} x else/no else x {recording, bare} conditions x {row = slice, row = struct}", int64(len(rowCases)), true)
+	r.Parallel(int64(len(rowCases)), 0, func(i int64) { r.Check(checkRows(r, rowCases[i])) })
+	r.Rapid("rows", r.Pick(1500, 30000), func(t *rapid.T) *vk.Fail {
+		k := rapid.IntRange(1, 4).Draw(t, "branches")
+		field := rapid.Bool().Draw(t, "field")
+		pool := []int{0, 1, 2, 3, 4, 5, 6, 7, 8, 9}
+		if field {
+			pool = []int{0, 1, 2, 3, 4, 5, 6, 7, 9} // a field that holds a non-nil pointer: what it yields is C11's matter
+		}
+		rows := rapid.SliceOfN(rapid.SliceOfN(rapid.SampledFrom(pool), k, k), 2, 6).Draw(t, "rows")
+		return checkRows(r, RowsCase{Rows: rows, HasElse: rapid.Bool().Draw(t, "else"), Mode: rapid.SampledFrom([]string{"loop", "fn", "exec"}).Draw(t, "mode"), Bare: rapid.Bool().Draw(t, "bare"), Field: field})
+	})
 
 	r.Rapid("nested", r.Pick(4000, 60000), func(t *rapid.T) *vk.Fail {
 		g := &nestGen{t: t}
-		return checkNest(r, g.nodes(3))
+		return checkNest(r, g.nodes(3), rapid.IntRange(0, 3).Draw(t, "thrice") == 0)
 	})
 }
